@@ -120,6 +120,16 @@ PLANS["C17"] = dict(
               ("asan", "lockstep", [], 16, ["--histories", "4000"]), ("miri", "lockstep", ["--ops", "60"], 16, ["--histories", "6"])],
 )
 
+PLANS["C19"] = dict(
+    level="exploration",
+    need=["get_reused", "arenas_seen_by_several_threads", "pool_reset", "pool_reset_to_start", "pool_drop_only", "blocks_verified"],
+    rule="evaluations = pool runs: 2-16 threads x 50-500 get/allocate/drop cycles through all six acquisition methods with injected yields/sleeps, followed by pool reset, reset_to_start or drop; "
+         "distinct_nontrivial = number of distinct get/drop interleavings observed (hash of the (thread, event) sequence of the run's event log)",
+    quick=[("dbg", "pool", [], 8, ["--histories", "3"]), ("rel", "pool", [], 8, ["--histories", "6"]), ("miri", "pool", [], 16, ["--histories", "2"])],
+    thorough=[("dbg", "pool", [], 16, ["--histories", "40"]), ("rel", "pool", [], 16, ["--histories", "150"]), ("tsan", "pool", [], 16, ["--histories", "20"]),
+              ("asan", "pool", [], 16, ["--histories", "20"]), ("miri", "pool", [], 16, ["--histories", "8"])],
+)
+
 # ---------------------------------------------------------------------------------------------
 # building
 
@@ -169,6 +179,9 @@ def shard_cmd(variant, binary, path, args):
     if variant == "miri":
         # the collection drivers leak on purpose (forgotten drains, values lost by panicking drops): the drop ledger judges those
         flags = MIRIFLAGS + (" -Zmiri-ignore-leaks" if binary in ("coll", "pool") else "")
+        if binary == "pool" and "--shard" in args:
+            # a different scheduler seed per shard: more distinct interleavings, data-race detection on each
+            flags += f" -Zmiri-seed={args[args.index('--shard') + 1]} -Zmiri-preemption-rate=0.05"
         return ["cargo", "+nightly", "miri", "run", "--bin", binary, "--target-dir", target_dir("miri"), "--", *args], {"MIRIFLAGS": flags}
     if variant == "vg":
         return ["valgrind", "--error-exitcode=97", "--leak-check=no", "--undef-value-errors=yes", "-q", path, *args], {}
